@@ -21,6 +21,21 @@ package c19
 // the direction the documentation promises (every non-partial detector error,
 // ErrPartialResource when a detector reported a partial resource,
 // ErrSchemaURLConflict when the fold conflicts, nil when nothing went wrong).
+//
+// Hostile caller (path 3, "shared array"): all detectors of the case live in
+// ONE caller-owned array with spare capacity. Two option lists are prepared
+// up front, as real code does with a shared "common" group: optsA =
+// WithDetectors(common...) + a following detector-carrying option, optsB =
+// WithDetectors(append(common, rest...)...) + WithAttributes(...), the kv
+// lists lent in slices with spare capacity too. The lists are evaluated one after the other, twice, followed by a
+// plain Detect over the caller's own slice ("the caller's NEXT call"). Every
+// result must be the fold of ITS list as the caller built it: that is the
+// statement (exact right-biased union in list order, no attribute lost)
+// quantified over "all detector orders"; whether the library wrote into the
+// caller's detector array is only recorded as a class label, the assertion
+// is the result of the next call. Every resource handed out is fingerprinted
+// and re-checked at the end of the case, after the caller has scribbled over
+// all slices it lent (Resource is documented as immutable).
 
 import (
 	"context"
@@ -28,6 +43,7 @@ import (
 	"fmt"
 	"testing"
 
+	"go.opentelemetry.io/otel/attribute"
 	"go.opentelemetry.io/otel/sdk/resource"
 	"go.opentelemetry.io/otel/verif/internal/vk"
 	"pgregory.net/rapid"
@@ -51,6 +67,13 @@ type DetCase struct {
 	Dets      []Det  `json:"dets"`
 	SchemaOpt bool   `json:"schema_opt"`
 	Schema    string `json:"schema"`
+	// shared-array scenario (path 3)
+	Spare   int     `json:"spare"`    // free slots of the caller's detector array beyond the full list
+	Prefix  int     `json:"prefix"`   // the common group is Dets[:Prefix]
+	TailA   []vk.KV `json:"tail_a"`   // kv list of the option following WithDetectors(common...)
+	TailB   []vk.KV `json:"tail_b"`   // optsB ends with WithAttributes(TailA ++ TailB)
+	TailDet bool    `json:"tail_det"` // the option following common is WithDetectors(one detector) instead of WithAttributes
+	NoTailA bool    `json:"no_tail_a"`
 }
 
 func genDetect(t *rapid.T) DetCase {
@@ -81,6 +104,15 @@ func genDetect(t *rapid.T) DetCase {
 		c.SchemaOpt = true
 		c.Schema = rapid.SampledFrom(urls).Draw(t, "opt_schema")
 	}
+	c.Spare = rapid.IntRange(0, 2).Draw(t, "spare")
+	c.Prefix = rapid.IntRange(0, n).Draw(t, "prefix")
+	if n >= 2 && rapid.Bool().Draw(t, "prefix.inner") {
+		c.Prefix = rapid.IntRange(1, n-1).Draw(t, "prefix.in")
+	}
+	c.TailA = genKVList(t, "tail_a", keys, 3)
+	c.TailB = genKVList(t, "tail_b", keys, 3)
+	c.TailDet = rapid.IntRange(0, 2).Draw(t, "tail_det") == 0
+	c.NoTailA = rapid.IntRange(0, 5).Draw(t, "no_tail_a") == 0
 	return c
 }
 
@@ -120,100 +152,138 @@ func instantiate(c DetCase, calls *[]int) ([]fakeDetector, []error) {
 	return dets, sentinels
 }
 
+// tailIdx is the call-log identity of the detector carrying a tail kv list.
+const tailIdx = 100
+
+// planItem is one element of a detector list as the caller built it.
+type planItem struct {
+	idx    int // index into DetCase.Dets, or tailIdx
+	det    Det
+	silent bool // handed over as WithAttributes: its call is not observable
+}
+
+// expectation is what the statement and the documentation promise for a plan.
+type expectation struct {
+	model           rmodel
+	conflict        bool
+	overlapDiff     bool
+	ambiguous       bool // constructor ambiguity (package comment): attributes not asserted
+	nOther          int
+	nPartial        int
+	others          []int // indices of detectors with an unrelated error
+	calls           []int
+	failingInMiddle bool
+}
+
+func expect(plan []planItem, start rmodel) expectation {
+	e := expectation{model: start}
+	for i, it := range plan {
+		d := it.det
+		if !it.silent {
+			e.calls = append(e.calls, it.idx)
+		}
+		switch d.Err {
+		case "other":
+			e.nOther++
+			e.others = append(e.others, it.idx)
+		case "partial", "partial_deep":
+			e.nPartial++
+		}
+		if d.Err != "" && i < len(plan)-1 {
+			e.failingInMiddle = true
+		}
+		if d.Err == "other" || d.Res.Kind == "nil" {
+			continue
+		}
+		cm := newCtorModel(vk.ToAttrs(d.Res.KVs))
+		if len(cm.maybe) > 0 {
+			e.ambiguous = true
+		}
+		dm := rmodel{cm.strict, d.Res.schema()}
+		df, _ := overlap(e.model.attrs, dm.attrs)
+		e.overlapDiff = e.overlapDiff || df
+		var cf bool
+		e.model, cf = mergeModel(e.model, dm)
+		e.conflict = e.conflict || cf
+	}
+	return e
+}
+
+func fingerprint(r *resource.Resource) string {
+	return fmt.Sprintf("%q|%v", r.SchemaURL(), renderSlice(r.Attributes()))
+}
+
 func runDetect(c DetCase) ([]vk.Violation, vk.Info) {
 	rep := &reporter{}
 	var info vk.Info
 	ctx := context.Background()
 
-	// --- model: left fold of the merge model over the kept detectors ---
-	fold := func(start rmodel) (rmodel, bool, bool, bool) {
-		acc := start
-		conflict, overlapDiff, overlapAny := false, false, false
-		for _, d := range c.Dets {
-			if d.Err == "other" || d.Res.Kind == "nil" {
-				continue
-			}
-			dm := rmodel{newCtorModel(vk.ToAttrs(d.Res.KVs)).strict, d.Res.schema()}
-			df, sm := overlap(acc.attrs, dm.attrs)
-			overlapDiff = overlapDiff || df
-			overlapAny = overlapAny || df || sm
-			var cf bool
-			acc, cf = mergeModel(acc, dm)
-			conflict = conflict || cf
-		}
-		return acc, conflict, overlapDiff, overlapAny
+	type held struct {
+		label string
+		r     *resource.Resource
+		fp    string
 	}
-	ambiguous := false
-	nOther, nPartial := 0, 0
-	failingInMiddle := false
-	for i, d := range c.Dets {
-		if len(newCtorModel(vk.ToAttrs(d.Res.KVs)).maybe) > 0 && d.Err != "other" && d.Res.Kind != "nil" {
-			ambiguous = true // constructor ambiguity (see package comment): checked by merge_algebra, skipped here
-		}
-		switch d.Err {
-		case "other":
-			nOther++
-		case "partial", "partial_deep":
-			nPartial++
-		}
-		if d.Err != "" && i < len(c.Dets)-1 {
-			failingInMiddle = true
-		}
-	}
+	var handedOut []held
 
-	check := func(label string, r *resource.Resource, err error, start rmodel, calls, wantCalls []int, sentinels []error) (bool, bool) {
-		wm, conflict, overlapDiff, _ := fold(start)
+	verify := func(label string, r *resource.Resource, err error, e expectation, calls []int, sentinels []error) {
+		handedOut = append(handedOut, held{label, r, fingerprint(r)})
 		if r == nil {
 			rep.bad("detect_nil_resource", "%s: returned a nil resource (err = %v)", label, err)
 		}
-		if !ambiguous {
-			if want, have := wm.attrs.render(), renderSlice(r.Attributes()); !sameStrings(have, want) {
-				rep.bad("detect_fold", "%s: attributes %v, left fold of Merge over the kept detectors %v", label, have, want)
+		if !e.ambiguous {
+			if want, have := e.model.attrs.render(), renderSlice(r.Attributes()); !sameStrings(have, want) {
+				rep.bad("detect_fold", "%s: attributes %v, left fold of Merge over the kept detectors of the list as the caller built it %v", label, have, want)
 			}
 		}
-		if conflict {
+		if e.conflict {
 			if err == nil || !errors.Is(err, resource.ErrSchemaURLConflict) {
 				rep.bad("detect_conflict_not_reported", "%s: the fold meets conflicting schema URLs, error = %v", label, err)
 			}
-			if s := r.SchemaURL(); s != "" && s != wm.schema {
-				rep.bad("detect_schema", "%s: schema URL %q after a conflict, want \"\" or %q", label, s, wm.schema)
+			if s := r.SchemaURL(); s != "" && s != e.model.schema {
+				rep.bad("detect_schema", "%s: schema URL %q after a conflict, want \"\" or %q", label, s, e.model.schema)
 			}
-		} else if r.SchemaURL() != wm.schema {
-			rep.bad("detect_schema", "%s: schema URL %q, fold %q", label, r.SchemaURL(), wm.schema)
+		} else if r.SchemaURL() != e.model.schema {
+			rep.bad("detect_schema", "%s: schema URL %q, fold %q", label, r.SchemaURL(), e.model.schema)
 		}
-		for i, s := range sentinels {
-			if s != nil && (err == nil || !errors.Is(err, s)) {
+		for _, i := range e.others {
+			if s := sentinels[i]; s != nil && (err == nil || !errors.Is(err, s)) {
 				rep.bad("detect_error_not_wrapped", "%s: the error of detector %d is not wrapped by the returned error %v", label, i, err)
 			}
 		}
-		if nPartial > 0 && (err == nil || !errors.Is(err, resource.ErrPartialResource)) {
+		if e.nPartial > 0 && (err == nil || !errors.Is(err, resource.ErrPartialResource)) {
 			rep.bad("detect_partial_not_reported", "%s: a detector reported a partial resource, returned error = %v", label, err)
 		}
-		if nPartial == 0 && nOther == 0 && !conflict && err != nil {
+		if e.nPartial == 0 && e.nOther == 0 && !e.conflict && err != nil {
 			rep.bad("detect_spurious_error", "%s: no detector failed and no schema URL conflict, error = %v", label, err)
 		}
-		if fmt.Sprint(calls) != fmt.Sprint(wantCalls) {
-			rep.bad("detect_call_order", "%s: detectors called in order %v, want each once in order %v", label, calls, wantCalls)
+		if fmt.Sprint(calls) != fmt.Sprint(e.calls) {
+			rep.bad("detect_call_order", "%s: detectors called in order %v, want each once in order %v", label, calls, e.calls)
 		}
 		checkAccessors(rep, label, r, rmodel{modelOfSlice(r.Attributes()), r.SchemaURL()})
-		return conflict, overlapDiff
 	}
 
-	// --- path 1: Detect ---
+	full := make([]planItem, len(c.Dets))
+	for i, d := range c.Dets {
+		full[i] = planItem{idx: i, det: d}
+	}
+	junk := fakeDetector{idx: -99, res: resource.NewSchemaless(attribute.String("scribbled.by.caller", "x")), calls: new([]int)}
+	var scribbles []func()
+
+	// --- path 1: Detect (list lent with spare capacity) ---
 	var calls1 []int
 	dets1, sent1 := instantiate(c, &calls1)
-	list := make([]resource.Detector, len(dets1))
+	list := make([]resource.Detector, len(dets1), len(dets1)+1+c.Spare)
 	for i := range dets1 {
 		list[i] = dets1[i]
 	}
 	r1, err1 := resource.Detect(ctx, list...)
-	wantCalls1 := make([]int, len(c.Dets))
-	for i := range wantCalls1 {
-		wantCalls1[i] = i
+	e1 := expect(full, rmodel{newAttrModel(), ""})
+	verify("Detect", r1, err1, e1, calls1, sent1)
+	for i := range list[:cap(list)] {
+		list[:cap(list)][i] = junk
 	}
-	conflict, overlapDiff := check("Detect", r1, err1, rmodel{newAttrModel(), ""}, calls1, wantCalls1, sent1)
 
-	// --- path 2: New ---
+	// --- path 2: New, options split ---
 	var calls2 []int
 	dets2, sent2 := instantiate(c, &calls2)
 	var opts []resource.Option
@@ -233,28 +303,32 @@ func runDetect(c DetCase) ([]vk.Violation, vk.Info) {
 		}
 	}
 	viaOption := false
-	var wantCalls2 []int
+	plan2 := make([]planItem, len(full))
+	copy(plan2, full)
 	for i, d := range c.Dets {
 		if d.ViaOption && d.Err == "" && d.Res.Kind == "schemaless" {
 			// WithAttributes(kvs...) stands for a detector returning
 			// (NewSchemaless(kvs...), nil); its call is not observable.
 			flush()
-			opts = append(opts, resource.WithAttributes(vk.ToAttrs(d.Res.KVs)...))
+			buf, scribble := lend(d.Res.KVs)
+			scribbles = append(scribbles, scribble)
+			opts = append(opts, resource.WithAttributes(buf...))
 			viaOption = true
+			plan2[i].silent = true
 			continue
 		}
 		if d.Split {
 			flush()
 		}
 		group = append(group, dets2[i])
-		wantCalls2 = append(wantCalls2, i)
 	}
 	flush()
 	if c.SchemaOpt && !schemaFirst {
 		opts = append(opts, resource.WithSchemaURL(c.Schema))
 	}
 	r2, err2 := resource.New(ctx, opts...)
-	conflict2, _ := check("New", r2, err2, start, calls2, wantCalls2, sent2)
+	e2 := expect(plan2, start)
+	verify("New", r2, err2, e2, calls2, sent2)
 
 	if !c.SchemaOpt {
 		if !sameStrings(renderSlice(r1.Attributes()), renderSlice(r2.Attributes())) || r1.SchemaURL() != r2.SchemaURL() || !r1.Equal(r2) {
@@ -262,20 +336,124 @@ func runDetect(c DetCase) ([]vk.Violation, vk.Info) {
 		}
 	}
 
-	info.NonTrivial = overlapDiff || failingInMiddle
-	info.ClassIf(overlapDiff, "later_detector_overrides_key")
-	info.ClassIf(failingInMiddle, "failing_detector_not_last")
-	info.ClassIf(nOther > 0, "detector_error_other")
-	info.ClassIf(nPartial > 0, "detector_error_partial")
-	info.ClassIf(nOther > 0 && nPartial > 0, "both_error_kinds")
-	info.ClassIf(nOther >= 2, ">=2_other_errors")
-	info.ClassIf(conflict, "schema_conflict_between_detectors")
-	info.ClassIf(conflict2 && !conflict, "schema_conflict_with_WithSchemaURL")
-	info.ClassIf(!conflict && r1.SchemaURL() != "", "schema_url_propagated")
-	info.ClassIf(ambiguous, "ctor_ambiguity(attributes not asserted)")
+	// --- path 3: two option lists sharing the caller's arrays ---
+	prefix := c.Prefix
+	if prefix > len(c.Dets) {
+		prefix = len(c.Dets)
+	}
+	if prefix < 0 {
+		prefix = 0
+	}
+	var calls3 []int
+	dets3, sent3 := instantiate(c, &calls3)
+	arr := make([]resource.Detector, 0, len(dets3)+c.Spare)
+	for i := 0; i < prefix; i++ {
+		arr = append(arr, dets3[i])
+	}
+	common := arr
+	all := common
+	for i := prefix; i < len(dets3); i++ {
+		all = append(all, dets3[i]) // same backing array: cap(arr) >= len(dets3)
+	}
+	// The kv lists of the two WithAttributes options live in separate
+	// caller-owned arrays with spare capacity: the constructors reorder the
+	// slice they are given (documented by package attribute), so a longer list
+	// sharing the array would legitimately rearrange the shorter one between
+	// two evaluations of optsA. (merge_algebra covers the shared kv array in
+	// the one order that is well defined: shorter list first, once.)
+	tailAB := append(cloneKVs(c.TailA), c.TailB...)
+	kvA, scribbleA := lend(c.TailA)
+	kvB := make([]attribute.KeyValue, len(tailAB), len(tailAB)+2)
+	copy(kvB, vk.ToAttrs(tailAB))
+	tailDetA := Det{Res: Res{Kind: "schemaless", KVs: c.TailA}}
+	tailDetB := Det{Res: Res{Kind: "schemaless", KVs: tailAB}}
+
+	optsA := []resource.Option{resource.WithDetectors(common...)}
+	planA := append([]planItem{}, full[:prefix]...)
+	switch {
+	case c.NoTailA:
+	case c.TailDet:
+		optsA = append(optsA, resource.WithDetectors(fakeDetector{idx: tailIdx, res: tailDetA.Res.build(), calls: &calls3}))
+		planA = append(planA, planItem{idx: tailIdx, det: tailDetA})
+	default:
+		optsA = append(optsA, resource.WithAttributes(kvA...))
+		planA = append(planA, planItem{idx: tailIdx, det: tailDetA, silent: true})
+	}
+	optsB := []resource.Option{resource.WithDetectors(all...), resource.WithAttributes(kvB...)}
+	planB := append(append([]planItem{}, full...), planItem{idx: tailIdx, det: tailDetB, silent: true})
+	eA, eB := expect(planA, rmodel{newAttrModel(), ""}), expect(planB, rmodel{newAttrModel(), ""})
+
+	identities := func() string {
+		var ids []int
+		for _, d := range all {
+			if fd, ok := d.(fakeDetector); ok {
+				ids = append(ids, fd.idx)
+			} else {
+				ids = append(ids, -1)
+			}
+		}
+		return fmt.Sprint(ids)
+	}
+	builtIDs := identities()
+	for round := 1; round <= 2; round++ {
+		calls3 = nil
+		rA, errA := resource.New(ctx, optsA...)
+		verify(fmt.Sprintf("shared array, New(optsA) #%d", round), rA, errA, eA, calls3, sent3)
+		calls3 = nil
+		rB, errB := resource.New(ctx, optsB...)
+		verify(fmt.Sprintf("shared array, New(optsB) after New(optsA) #%d", round), rB, errB, eB, calls3, sent3)
+	}
+	// the caller's next use of its own slice
+	calls3 = nil
+	rN, errN := resource.Detect(ctx, all...)
+	verify("shared array, Detect(caller's slice) after the New calls", rN, errN, e1, calls3, sent3)
+	callerSliceChanged := identities() != builtIDs
+
+	// --- the caller scribbles over everything it lent; nothing handed out may change ---
+	for i := range arr[:cap(arr)] {
+		arr[:cap(arr)][i] = junk
+	}
+	scribbleA()
+	for i := range kvB[:cap(kvB)] {
+		kvB[:cap(kvB)][i] = attribute.String("scribbled.by.caller", "x")
+	}
+	for _, f := range scribbles {
+		f()
+	}
+	for _, h := range handedOut {
+		if fp := fingerprint(h.r); fp != h.fp {
+			rep.bad("retained_resource_changed", "%s: the resource handed out was %s and is now %s", h.label, h.fp, fp)
+		}
+	}
+
+	info.NonTrivial = e1.overlapDiff || e1.failingInMiddle
+	info.ClassIf(e1.overlapDiff, "later_detector_overrides_key")
+	info.ClassIf(e1.failingInMiddle, "failing_detector_not_last")
+	info.ClassIf(e1.nOther > 0, "detector_error_other")
+	info.ClassIf(e1.nPartial > 0, "detector_error_partial")
+	info.ClassIf(e1.nOther > 0 && e1.nPartial > 0, "both_error_kinds")
+	info.ClassIf(e1.nOther >= 2, ">=2_other_errors")
+	info.ClassIf(e1.conflict, "schema_conflict_between_detectors")
+	info.ClassIf(e2.conflict && !e1.conflict, "schema_conflict_with_WithSchemaURL")
+	info.ClassIf(!e1.conflict && r1.SchemaURL() != "", "schema_url_propagated")
+	info.ClassIf(e1.ambiguous, "ctor_ambiguity(attributes not asserted)")
 	info.ClassIf(viaOption, "WithAttributes_option")
 	info.ClassIf(c.SchemaOpt, "WithSchemaURL_option")
 	info.ClassIf(len(c.Dets) == 0, "no_detectors")
+	inner := prefix >= 1 && prefix < len(c.Dets)
+	info.ClassIf(inner && !c.NoTailA, "shared_array:common_prefix_then_option,longer_list_prepared_before")
+	if inner && !c.NoTailA && !eB.ambiguous {
+		// would the longer list's result differ if the slot after the common
+		// group were replaced by optsA's tail detector?
+		alt := append([]planItem{}, planB...)
+		alt[prefix] = planItem{idx: tailIdx, det: tailDetA}
+		info.ClassIf(!expect(alt, rmodel{newAttrModel(), ""}).model.attrs.bitEqual(eB.model.attrs), "shared_array:slot_after_common_matters")
+	}
+	info.ClassIf(prefix == 0, "shared_array:empty_common_group")
+	info.ClassIf(prefix == len(c.Dets), "shared_array:common_is_whole_list")
+	info.ClassIf(c.TailDet && !c.NoTailA, "shared_array:following_option_is_WithDetectors")
+	info.ClassIf(!c.TailDet && !c.NoTailA, "shared_array:following_option_is_WithAttributes")
+	info.ClassIf(callerSliceChanged, "caller_detector_slice_changed(not asserted)")
 	for _, d := range c.Dets {
 		info.ClassIf(d.Res.Kind == "nil" && d.Err == "", "detector_returns_(nil,nil)")
 		info.ClassIf(d.Res.Kind == "nil" && d.Err != "", "detector_returns_(nil,err)")
@@ -289,9 +467,12 @@ func TestDetectFold(t *testing.T) {
 	vk.Run(t, vk.Spec[DetCase]{
 		Property: "C19", Check: "detect_fold",
 		Rule: "lists of 0..6 fake detectors, each returning nil | Empty() | a resource built from a generated kv list with a schema URL, together with no error | an error wrapping ErrPartialResource (once or twice) | an unrelated error; " +
-			"run through resource.Detect and through resource.New (options split into several WithDetectors / WithAttributes, optional WithSchemaURL before or after); " +
+			"run through resource.Detect and through resource.New (options split into several WithDetectors / WithAttributes, optional WithSchemaURL before or after), " +
+			"and as a hostile caller: all detectors in one caller-owned array with spare capacity, optsA = WithDetectors(common prefix) + a following WithAttributes / WithDetectors option and " +
+			"optsB = WithDetectors(append(common, rest...)) + WithAttributes prepared up front, evaluated A, B, A, B, then Detect over the caller's slice; " +
+			"all lent slices are scribbled over at the end and every resource handed out is re-checked; " +
 			"non-trivial = a kept detector overrides a key of an earlier one with a different value, or a failing detector is followed by another detector; distinct = distinct case encodings",
-		Quick: 50000, Thorough: 600000,
+		Quick: 40000, Thorough: 500000,
 		Gen: genDetect, Run: runDetect,
 	})
 }
